@@ -82,7 +82,8 @@ type StreamFeature struct {
 
 func containsStartTLS(features []StreamFeature) (startTLS StreamFeature, ok bool) {
 	for _, feature := range features {
-		if feature.Name.Space == ns.StartTLS {
+		// An informational feature (nil Negotiate) can never be attempted.
+		if feature.Name.Space == ns.StartTLS && feature.Negotiate != nil {
 			startTLS, ok = feature, true
 			break
 		}
